@@ -220,10 +220,13 @@ macro_rules! explorer {
                 let len = source.len();
                 for partial in [false, true] {
                     for start_def in [0u8, 1] {
-                        let mut seen: HashSet<(u8, usize, usize, u32)> = HashSet::new();
+                        // (the last component is a fact about the HISTORY, not about the lexer: has a next() call answered
+                        // None yet? An iterator that remembers having been exhausted would be merged with one that
+                        // does not if the key were the visible state alone)
+                        let mut seen: HashSet<(u8, usize, usize, u32, bool)> = HashSet::new();
                         let mut q: VecDeque<(Node, usize, Vec<&'static str>)> = VecDeque::new();
                         let init = fresh(start_def, partial, src);
-                        seen.insert((start_def, 0, 0, 0));
+                        seen.insert((start_def, 0, 0, 0, false));
                         q.push_back((init, 0, vec![]));
                         let complain = |rep: &mut Report, tag: &str, hist: &[&'static str], detail: String| {
                             if rep.violations.len() < 10 {
@@ -240,6 +243,7 @@ macro_rules! explorer {
                             rep.count("states", 1);
                             crate::tick(|| format!("{} source {:?} partial={partial} history {:?}", stringify!($modname), String::from_utf8_lossy(source), hist));
                             let (s, e) = node.span();
+                            let none_seen = hist.contains(&"next=None");
                             // accessor invariants in every state
                             if !(s <= e && e <= len && $is_boundary(src, s) && $is_boundary(src, e)) {
                                 complain(rep, "SPAN-RANGE", &hist, format!("span {s}..{e} is not a valid range of the source (len {len})"));
@@ -267,9 +271,10 @@ macro_rules! explorer {
                                     complain(rep, "EXTRAS", &hist, format!("extras {} -> {}, a fresh lexer counts {extras_delta}", node.extras(), n2.extras()));
                                 }
                                 let (ns, ne) = n2.span();
-                                if seen.insert((n2.which(), ns, ne, n2.extras())) {
+                                let is_none = st.0.is_none();
+                                if seen.insert((n2.which(), ns, ne, n2.extras(), none_seen || is_none)) {
                                     let mut h = hist.clone();
-                                    h.push("next");
+                                    h.push(if is_none { "next=None" } else { "next" });
                                     q.push_back((n2, d + 1, h));
                                 }
                             }
@@ -286,7 +291,7 @@ macro_rules! explorer {
                                     complain(rep, "BUMP", &hist, format!("bump(1) from {s}..{e} gives {:?}", n2.span()));
                                 }
                                 let (ns, ne) = n2.span();
-                                if seen.insert((n2.which(), ns, ne, n2.extras())) {
+                                if seen.insert((n2.which(), ns, ne, n2.extras(), none_seen)) {
                                     let mut h = hist.clone();
                                     h.push("bump(1)");
                                     q.push_back((n2, d + 1, h));
@@ -341,7 +346,7 @@ macro_rules! explorer {
                                     complain(rep, "MORPH-BACK", &hist, "morph there and back does not give the original lexer back".into());
                                 }
                                 let (ms, me) = m.span();
-                                if seen.insert((m.which(), ms, me, m.extras())) {
+                                if seen.insert((m.which(), ms, me, m.extras(), none_seen)) {
                                     let mut h = hist.clone();
                                     h.push("morph");
                                     q.push_back((m, d + 1, h));
@@ -354,6 +359,144 @@ macro_rules! explorer {
                                 rep.count("transitions", 1);
                                 if manual != sp {
                                     complain(rep, "SPANNED", &hist, format!("spanned() yields {sp:?}, manual iteration {manual:?}"));
+                                }
+                            }
+                        }
+                    }
+                }
+            }
+
+            /// the same histories driven THROUGH the spanned iterator (`SpannedIter` derefs to the lexer, so
+            /// `bump` and the accessors are available on it; it is `Clone` and an iterator itself): in every
+            /// state its next() must be the wrapped lexer's next() paired with the span, whatever was
+            /// called before - also after a None that was not final (partial mode), after a bump behind
+            /// an exhausted lexer, on a clone.
+            #[derive(Clone)]
+            pub enum SNode<'s> {
+                A(logos::SpannedIter<'s, $A>),
+                B(logos::SpannedIter<'s, $B>),
+            }
+
+            impl<'s> SNode<'s> {
+                fn inner(&self) -> Node<'s> {
+                    match self {
+                        SNode::A(i) => Node::A((**i).clone()),
+                        SNode::B(i) => Node::B((**i).clone()),
+                    }
+                }
+                fn next(&mut self) -> Step {
+                    let r = match self {
+                        SNode::A(i) => i.next().map(|(x, sp)| (format!("{x:?}"), sp)),
+                        SNode::B(i) => i.next().map(|(x, sp)| (format!("{x:?}"), sp)),
+                    };
+                    match r {
+                        Some((x, sp)) => (Some(x), sp.start, sp.end),
+                        None => {
+                            let (s, e) = self.inner().span();
+                            (None, s, e)
+                        }
+                    }
+                }
+                fn bump1(&mut self) {
+                    match self {
+                        SNode::A(i) => i.bump(1),
+                        SNode::B(i) => i.bump(1),
+                    }
+                }
+            }
+
+            pub fn explore_spanned(source: &[u8], depth: usize, rep: &mut Report) {
+                let src: &$Src = $to_src(source);
+                let len = source.len();
+                for partial in [false, true] {
+                    for start_def in [0u8, 1] {
+                        let mut seen: HashSet<(usize, usize, u32, bool)> = HashSet::new();
+                        let mut q: VecDeque<(SNode, usize, Vec<&'static str>)> = VecDeque::new();
+                        let init = match fresh(start_def, partial, src) {
+                            Node::A(l) => SNode::A(l.spanned()),
+                            Node::B(l) => SNode::B(l.spanned()),
+                        };
+                        seen.insert((0, 0, 0, false));
+                        q.push_back((init, 0, vec![]));
+                        let complain = |rep: &mut Report, tag: &str, hist: &[&'static str], detail: String| {
+                            if rep.violations.len() < 10 {
+                                rep.violations.push(Violation {
+                                    key: format!("{tag}/spanned/{}/{:?}", stringify!($modname), hist),
+                                    tag: tag.into(),
+                                    case: format!("{} (through the spanned iterator) source {:?} partial={partial} start={} history {:?}", stringify!($modname), String::from_utf8_lossy(source), if start_def == 0 { stringify!($A) } else { stringify!($B) }, hist),
+                                    detail,
+                                    replay: serde_json::json!({"kind": "vderive", "prop": "C14", "tag": tag, "family": stringify!($modname), "source_hex": vcore::hex(source), "depth": hist.len()}),
+                                });
+                            }
+                        };
+                        while let Some((node, d, hist)) = q.pop_front() {
+                            rep.count("states", 1);
+                            rep.count("spanned_iterator_states", 1);
+                            let inner = node.inner();
+                            let (s, e) = inner.span();
+                            let none_seen = hist.contains(&"next=None");
+                            if !(s <= e && e <= len && $is_boundary(src, s) && $is_boundary(src, e)) {
+                                complain(rep, "SPAN-RANGE", &hist, format!("span {s}..{e} is not a valid range of the source (len {len})"));
+                                continue;
+                            }
+                            if !inner.slice_ok(src) {
+                                complain(rep, "ACCESSORS", &hist, format!("slice()/remainder() seen through the spanned iterator differ from source[{s}..{e}] / source[{e}..]"));
+                            }
+                            if d == depth {
+                                continue;
+                            }
+                            // ---- next through the iterator == next of the wrapped lexer, with its span; the same on a clone
+                            {
+                                let mut n2 = node.clone();
+                                let st = n2.next();
+                                let mut c2 = node.clone().clone();
+                                let ct = c2.next();
+                                let mut l = inner.clone();
+                                let want = l.next();
+                                rep.count("transitions", 2);
+                                if st != want || ct != want {
+                                    complain(rep, "SPANNED", &hist, format!("next() of the spanned iterator gives {st:?} (of its clone: {ct:?}); the wrapped lexer gives {want:?}"));
+                                } else if n2.inner().span() != l.span() || n2.inner().extras() != l.extras() {
+                                    complain(rep, "SPANNED", &hist, format!("after next() the iterator wraps span {:?} / extras {}, the lexer is at {:?} / {}", n2.inner().span(), n2.inner().extras(), l.span(), l.extras()));
+                                }
+                                let is_none = st.0.is_none();
+                                let (ns, ne) = n2.inner().span();
+                                if seen.insert((ns, ne, n2.inner().extras(), none_seen || is_none)) {
+                                    let mut h = hist.clone();
+                                    h.push(if is_none { "next=None" } else { "next" });
+                                    q.push_back((n2, d + 1, h));
+                                }
+                            }
+                            // ---- bump(1) through DerefMut
+                            if e + 1 <= len && $is_boundary(src, e + 1) {
+                                let mut n2 = node.clone();
+                                let bumped = std::panic::catch_unwind(std::panic::AssertUnwindSafe(|| n2.bump1()));
+                                rep.count("transitions", 1);
+                                if bumped.is_err() || n2.inner().span() != (s, e + 1) {
+                                    complain(rep, "BUMP", &hist, format!("an in-range bump(1) through the spanned iterator from {s}..{e} (len {len}) panicked or gives {:?}", n2.inner().span()));
+                                    continue;
+                                }
+                                if seen.insert((s, e + 1, n2.inner().extras(), none_seen)) {
+                                    let mut h = hist.clone();
+                                    h.push("bump(1)");
+                                    q.push_back((n2, d + 1, h));
+                                }
+                            }
+                            // ---- the rest of the iterator == manual iteration of the wrapped lexer
+                            {
+                                let manual: Vec<_> = inner.clone().drain(len + 3).into_iter().filter(|x| x.0.is_some()).collect();
+                                let mut it = node.clone();
+                                let mut got = vec![];
+                                for _ in 0..len + 3 {
+                                    let st = it.next();
+                                    if st.0.is_none() {
+                                        break;
+                                    }
+                                    got.push(st);
+                                }
+                                rep.count("transitions", 1);
+                                if got != manual {
+                                    complain(rep, "SPANNED", &hist, format!("the spanned iterator continues with {got:?}, manual iteration of the wrapped lexer with {manual:?}"));
                                 }
                             }
                         }
@@ -441,20 +584,23 @@ fn owned_extras(rep: &mut Report) {
 pub fn run(tier: &str, rep: &mut Report) {
     std::panic::set_hook(Box::new(|_| {}));
     let depth = if tier == "thorough" { 12 } else { 8 };
-    rep.bounds.insert("histories".into(), format!("all sequences of {{next, bump(1) when legal, clone, morph, spanned}} up to depth {depth}, de-duplicated on (definition, token_start, token_end, extras), for 3 definition pairs (str, bytes, str with look-ahead / end-anchored patterns) x {{ordinary, partial}} x both start definitions x 10-12 sources each (empty, ASCII, multi-byte, ending in a skip, ending mid-token, unmatched bytes, a leading byte order mark, 4-byte characters, a longer text)"));
+    rep.bounds.insert("histories".into(), format!("all sequences of {{next, bump(1) when legal, clone, morph, spanned}} up to depth {depth}, de-duplicated on (definition, token_start, token_end, extras, has a next() answered None before), and the same histories of {{next, bump(1), clone}} driven through the SpannedIter wrapper (its next() must be the wrapped lexer's in every state), for 3 definition pairs (str, bytes, str with look-ahead / end-anchored patterns) x {{ordinary, partial}} x both start definitions x 10-12 sources each (empty, ASCII, multi-byte, ending in a skip, ending mid-token, unmatched bytes, a leading byte order mark, 4-byte characters, a longer text)"));
     let str_sources: [&str; 12] = ["", "ab 12", "éa€b", "abc  ", "ab..", "a!b", "ab. x9", "BEG 1 BEGI", "\u{feff}ab 1", "a😊b 😊", "ab 12 cd 345 é€ ef.. 6", "\u{feff}"];
     for s in str_sources {
         strs::explore(s.as_bytes(), depth, rep);
+        strs::explore_spanned(s.as_bytes(), depth, rep);
         rep.count("programs", 1);
     }
     let look_sources: [&str; 10] = ["", "let end", "let x\nend", "ab\nend", "letx #a", "#ab\nlet", "end end\n", "\u{feff}let end", "let let\nend\n#x let", "é let"];
     for s in look_sources {
         looks::explore(s.as_bytes(), depth, rep);
+        looks::explore_spanned(s.as_bytes(), depth, rep);
         rep.count("programs", 1);
     }
     let bin_sources: [&[u8]; 10] = [b"", b"ab 12", b"\xc3\xa9a\xff", b"abc  ", b"a\x80\x80b", b"a!b", b"zz 7\xfe", b"\xef\xbb\xbfab 1", b"\xff\xfe\x00a", b"ab 12 cd 345 \xff\xff ef 6"];
     for s in bin_sources {
         bins::explore(s, depth, rep);
+        bins::explore_spanned(s, depth, rep);
         rep.count("programs", 1);
     }
     owned_extras(rep);
